@@ -72,7 +72,7 @@ def judge_liveness(vec, res, cfg, label, consumed=None):
         viols.append(viol('liveness:worker-left-behind', '%s: worker processes still alive after the run completed / was abandoned (vector %s)' % (label, list(vec)), [], res['alive']))
     n = len(res['out'])
     for b, o in zip(vec, res['out']):
-        limit = 1 if b == 'exit' else timeout + 2
+        limit = timeout + 2   # 'within roughly that timeout' - for a worker that died as for one that hangs (poll granularity 1 s + clean-up)
         if o['dt'] > limit + 1e-9:
             viols.append(viol('time:%s' % ('dead-worker-detected-late' if b == 'exit' else 'comparison-exceeds-timeout'),
                               '%s: comparison of behaviour %s took %s virtual seconds (timeout %s)' % (label, b, o['dt'], timeout), '<= %s' % limit, o['dt']))
